@@ -19,6 +19,9 @@ import time
 ROOT = os.path.dirname(os.path.dirname(os.path.abspath(__file__)))
 PY = os.path.join(ROOT, ".venv", "bin", "python")
 EVID = os.path.join(ROOT, "evidence")
+if os.environ.get("VERIF_REPO", "/repo") != "/repo":
+    # mutation-testing runs against a scratch worktree must not overwrite the real evidence
+    EVID = os.path.join("/tmp/verif_seed_evidence", os.path.basename(os.environ["VERIF_REPO"]))
 REPLAYS = os.path.join(EVID, "replays")
 NPROC = int(os.environ.get("VERIF_JOBS", "16"))
 
